@@ -135,7 +135,9 @@ pub fn worker_main(args: &[String]) {
         try_sites: sites_from_string(&args[4]),
         seed: args[5].parse().unwrap(),
     };
-    let track_cur = std::env::var("VCHECK_TRACK_CUR").is_ok();
+    // the prefix of the execution about to run is always announced, so that a worker killed by the
+    // subject (segfault, sanitizer abort) can be traced back to one schedule
+    let track_cur = true;
     let stdin = std::io::stdin();
     let stdout = std::io::stdout();
     let mut abandoned = 0usize;
@@ -299,11 +301,18 @@ pub struct Vio {
     pub text: String,
 }
 
+#[derive(Clone, Debug)]
+pub struct Crash {
+    pub desc: String,
+    /// prefix of the execution that was running when the worker died
+    pub prefix: Option<Vec<u8>>,
+}
+
 pub struct ExploreResult {
     pub stats: Stats,
     pub vios: Vec<Vio>,
     pub nondet: Vec<String>,
-    pub crashed: Vec<String>,
+    pub crashed: Vec<Crash>,
     pub try_sites: Vec<(String, u32)>,
 }
 
@@ -313,7 +322,7 @@ struct Shared {
     stats: Stats,
     vios: Vec<Vio>,
     nondet: Vec<String>,
-    crashed: Vec<String>,
+    crashed: Vec<Crash>,
     new_sites: BTreeSet<(String, u32)>,
     stop: bool,
 }
@@ -543,7 +552,7 @@ fn explore_once(exe: &str, spec: &WorkerSpec, limits: &Limits) -> ExploreResult 
                 } else {
                     // worker died without finishing: a crash (sanitizer report, abort, OOM)
                     let status = wp.as_mut().and_then(|w| w.child.wait().ok()).map(|s| format!("{:?}", s)).unwrap_or_default();
-                    g.crashed.push(format!("worker died ({}) while exploring under prefix {} (last execution started: {})", status, hex(&item), cur.clone().unwrap_or("?".into())));
+                    g.crashed.push(Crash { desc: format!("worker died ({}) while exploring under prefix {} (execution running: {})", status, hex(&item), cur.clone().unwrap_or("?".into())), prefix: cur.as_ref().map(|c| unhex(c)) });
                     g.stop = true;
                     wp = None;
                 }
@@ -574,6 +583,27 @@ fn explore_once(exe: &str, spec: &WorkerSpec, limits: &Limits) -> ExploreResult 
 }
 
 /// Replays one schedule in a fresh process and returns (trace hash, failure text, rendered trace)
+/// Replays a prefix in a fresh process; Some(stderr tail) if the process died abnormally (signal or sanitizer abort)
+pub fn replay_dies(exe: &str, spec: &WorkerSpec, schedule: &[u8]) -> Option<String> {
+    let cfgs = spec.cfg.to_string();
+    let out = Command::new(exe)
+        .arg("replay1")
+        .arg(&spec.scenario)
+        .arg(if cfgs.is_empty() { "-".to_string() } else { cfgs })
+        .arg(if spec.elide { "1" } else { "0" })
+        .arg(sites_to_string(&spec.try_sites))
+        .arg(hex(schedule))
+        .output()
+        .ok()?;
+    let so = String::from_utf8_lossy(&out.stdout);
+    if out.status.success() && so.lines().any(|l| l.starts_with("HASH ")) {
+        return None;
+    }
+    let se = String::from_utf8_lossy(&out.stderr);
+    let tail: Vec<&str> = se.lines().take(40).collect();
+    Some(format!("exit status {:?}\n{}", out.status, tail.join("\n")))
+}
+
 pub fn replay_in_subprocess(exe: &str, spec: &WorkerSpec, schedule: &[u8]) -> Option<(u64, Option<String>)> {
     let cfgs = spec.cfg.to_string();
     let out = Command::new(exe)
